@@ -83,3 +83,158 @@ fn homolog<const K: usize>() {
 fn c06_lines_have_homolog_3() {
     homolog::<3>();
 }
+
+// ------------------------------------------------------------------------------------------------
+// Greedy pairing of removed with added lines (`infer_edits`), with the text-level parts cut away:
+// `tokenize` (regex) returns no tokens and `annotate` returns a symbolic normalised distance per
+// (removed line, added line) and no annotations. What is executed is the real pairing loop, its
+// threshold test and the construction of the line alignment.
+mod pairing {
+    use super::super::*;
+    use std::mem::MaybeUninit;
+
+    const MINUS: [&str; 3] = ["", "x", "xx"]; // line i has length i (the stub identifies lines by length)
+    const PLUS: [&str; 3] = ["", "y", "yy"];
+    static mut DIST: [[f64; 3]; 3] = [[0.0; 3]; 3];
+
+    fn stub_tokenize<'a>(_line: &'a str, _regex: &Regex) -> Vec<&'a str> {
+        Vec::new()
+    }
+
+    #[allow(clippy::type_complexity)]
+    fn stub_annotate<'a, Annotation>(
+        alignment: align::Alignment<'a>,
+        _noop_deletion: Annotation,
+        _deletion: Annotation,
+        _noop_insertion: Annotation,
+        _insertion: Annotation,
+        minus_line: &'a str,
+        plus_line: &'a str,
+    ) -> (Vec<(Annotation, &'a str)>, Vec<(Annotation, &'a str)>, f64)
+    where
+        Annotation: Copy + PartialEq + std::fmt::Debug,
+    {
+        std::mem::forget(alignment);
+        let d = unsafe { DIST[minus_line.len()][plus_line.len()] };
+        (Vec::new(), Vec::new(), d)
+    }
+
+    fn any_distance() -> f64 {
+        // a distance is a ratio in [0, 1]; a few representative values keep the query small
+        let k: u8 = kani::any();
+        kani::assume(k < 5);
+        match k {
+            0 => 0.0,
+            1 => 0.25,
+            2 => 0.5,
+            3 => 0.75,
+            _ => 1.0,
+        }
+    }
+
+    fn check<const M: usize, const N: usize>() {
+        let regex_mem = MaybeUninit::<Regex>::uninit();
+        let regex: &Regex = unsafe { &*regex_mem.as_ptr() }; // never dereferenced: tokenize is stubbed
+        let mut dist = [[0.0f64; 3]; 3];
+        for i in 0..M {
+            for j in 0..N {
+                dist[i][j] = any_distance();
+            }
+        }
+        unsafe {
+            DIST = dist;
+        }
+        let max_d = any_distance();
+        let naive_d = any_distance();
+        let mut minus: Vec<&str> = Vec::with_capacity(M);
+        let mut plus: Vec<&str> = Vec::with_capacity(N);
+        let mut nd: Vec<u8> = Vec::with_capacity(M);
+        let mut ni: Vec<u8> = Vec::with_capacity(N);
+        for i in 0..M {
+            minus.push(MINUS[i]);
+            nd.push(0);
+        }
+        for j in 0..N {
+            plus.push(PLUS[j]);
+            ni.push(1);
+        }
+        let (am, ap, al) = infer_edits(minus, plus, nd, 2u8, ni, 3u8, regex, max_d, naive_d);
+        let n = al.len();
+        let big = if M > N { M } else { N };
+        assert!(n >= big && n <= M + N, "number of rows between max(m,n) and m+n");
+        assert!(am.len() == M && ap.len() == N, "one annotated line per input line");
+        // walk the alignment
+        let (mut mi, mut pj, mut pairs) = (0usize, 0usize, 0usize);
+        let mut k = 0;
+        while k < M + N {
+            if k < n {
+                match al[k] {
+                    (Some(a), Some(b)) => {
+                        assert!(a == mi && b == pj, "pairs never cross and no line is skipped or repeated");
+                        let d = dist[a][b];
+                        assert!(d <= max_d || (M == N && d <= naive_d), "a pair is only formed within the configured maximum distance");
+                        mi += 1;
+                        pj += 1;
+                        pairs += 1;
+                    }
+                    (Some(a), None) => {
+                        assert!(a == mi, "removed lines appear in order, once");
+                        mi += 1;
+                    }
+                    (None, Some(b)) => {
+                        assert!(b == pj, "added lines appear in order, once");
+                        pj += 1;
+                    }
+                    (None, None) => assert!(false, "empty alignment entry"),
+                }
+            }
+            k += 1;
+        }
+        assert!(mi == M && pj == N, "every removed and every added line appears exactly once");
+        // with the maximum distance at 1 every candidate is acceptable: i-th with i-th
+        if max_d >= 1.0 {
+            let small = if M < N { M } else { N };
+            assert!(pairs == small, "maximum distance 1: the i-th removed line is paired with the i-th added line");
+            let mut k = 0;
+            while k < small {
+                assert!(al[k] == (Some(k), Some(k)), "maximum distance 1: pairs are (i, i)");
+                k += 1;
+            }
+        }
+        // with the maximum at 0 (and the naive threshold at 0) only distance-0 lines are paired
+        if max_d == 0.0 && naive_d == 0.0 {
+            let mut k = 0;
+            while k < M + N {
+                if k < n {
+                    if let (Some(a), Some(b)) = al[k] {
+                        assert!(dist[a][b] == 0.0, "maximum distance 0: only lines at distance 0 are paired");
+                    }
+                }
+                k += 1;
+            }
+        }
+        kani::cover!(pairs == 0 && M > 0 && N > 0, "nothing paired");
+        kani::cover!(pairs >= 1 && n > big, "a pair after an unpaired line");
+        kani::cover!(max_d >= 1.0, "maximum distance 1");
+        kani::cover!(true, "end of harness reached");
+        std::mem::forget(am);
+        std::mem::forget(ap);
+        std::mem::forget(al);
+    }
+
+    #[kani::proof]
+    #[kani::unwind(6)]
+    #[kani::stub(tokenize, stub_tokenize)]
+    #[kani::stub(annotate, stub_annotate)]
+    fn c06_pairing_2_2() {
+        check::<2, 2>();
+    }
+
+    #[kani::proof]
+    #[kani::unwind(6)]
+    #[kani::stub(tokenize, stub_tokenize)]
+    #[kani::stub(annotate, stub_annotate)]
+    fn c06_pairing_1_2() {
+        check::<1, 2>();
+    }
+}
